@@ -1,4 +1,5 @@
 import JugModel.Lemmas.ExecOnce
+import JugModel.Generated.StopTable
 /-!
 # C12 - a worker asked to stop exits without leaving locks or partial results
 -/
@@ -53,6 +54,15 @@ theorem interrupted_task_has_no_result (P : Prog V) (fl : Worker → Flags) (s s
     other or later worker (they quantify over arbitrary histories from a state satisfying `Inv`) -/
 theorem state_after_stop_is_regular (P : Prog V) (fl : Worker → Flags) (s₀ s : Sys V) (evs : List (Ev V)) (h₀ : Inv s₀)
     (hr : Steps P fl s₀ evs s) : Inv s := steps_inv P fl evs s₀ s h₀ hr
+
+/-- bridge (regenerated from jug/hooks/exit_checks.py and jug/subcommands/execute.py on every run): every exit condition
+    (stop file, predicate, task-count limit, time limit) is raised from one of the two hooks that run *inside* the worker's
+    try/finally (`task-pre-execute`: state `holding t true`, `task-executed1`: state `ran t v true`), where `stop` is followed
+    by `unlock`; and the SIGTERM handler is installed unconditionally and raises SystemExit -/
+theorem stop_mechanisms_use_known_hooks :
+    (∀ p ∈ Generated.Stop.exitHooks, p.2 ≠ [] ∧ ∀ h ∈ p.2, h = "execute.task-pre-execute" ∨ h = "execute.task-executed1") ∧
+    Generated.Stop.exitHooks.length = 4 ∧
+    Generated.Stop.sigtermInstalledUnconditionally = true ∧ Generated.Stop.sigtermRaisesSystemExit = true := by decide +kernel
 
 /-! non-vacuity: SIGTERM inside a task function; lock released, nothing stored, exit status 1; a second worker finishes -/
 example : ∃ s, run (V := Nat) { n := 1, deps := fun _ => [], f := fun _ _ => 3 } (fun _ => ⟨false, false⟩) (initSys (fun _ => none))
